@@ -50,9 +50,47 @@ Example C04_delivery_example :
       OL [OS "m.f"; OL [OS "s2"]; OL [OL [OS "a"; OT "L" [OT "H" [OS "n.g"]; OT "Ret" [OS "n.g"; OZ 0]; OT "Ret" [OS "n.g"; OZ 1]]]]; OZ 2]].
 Proof. vm_compute. reflexivity. Qed.
 
+(* ---- dict literals: what copy.deepcopy does per item,  y[deepcopy(key)] = deepcopy(value) ---- *)
+(* the value of an item is evaluated BEFORE its key: a value that raises leaves the key unevaluated *)
+Theorem C04_dict_value_raises_key_not_run : forall f s k x t s0 e,
+  eval f s x = (s0, Raise e) -> eval (S f) s (VDict ((k, x) :: t)) = (s0, Raise e).
+Proof. exact eval_VDict_value_raises. Qed.
+
+(* k = @g() ; f.a = {%k: @h()} : h (under the key) runs before g (the key);
+   k = @g() ; f.a = {%k: %unbound} : the value raises first and g never runs (key-first would have run g) *)
+Theorem C04_dict_item_value_before_key :
+  let regs := [probe1 "m.f"; probe1 "n.g"; probe1 "n.h"] in
+  let s1 := run_top 50 (setup regs) [OParse "k" (VRef [] "g" true); OParse "f.a" (VDict [(VMacro "k", VRef [] "h" true)])] in
+  let s2 := run_top 50 (setup regs) [OParse "k" (VRef [] "g" true); OParse "f.a" (VDict [(VMacro "k", VMacro "unbound")])] in
+  (snd (call 50 s1 "m.f" [] []) = Ok (VRet "m.f" 2) /\
+   log_of (fst (call 50 s1 "m.f" [] [])) =
+     [("n.h", [("a", VNone)], 0%Z); ("n.g", [("a", VNone)], 1%Z);
+      ("m.f", [("a", VDict [(VRet "n.g" 1, VRet "n.h" 0)])], 2%Z)]) /\
+  (snd (call 50 s2 "m.f" [] []) = Raise "TypeError" /\ log_of (fst (call 50 s2 "m.f" [] [])) = []).
+Proof. exact dict_item_value_before_key. Qed.
+
+(* keys that are equal after evaluation (k1 = 1, k2 = True) are one entry: it keeps the earlier key and place and
+   takes the later value; a key that evaluates to a list raises TypeError once the item's value has run, and the
+   following items are not touched *)
+Theorem C04_dict_equal_keys_merge :
+  let regs := [probe1 "m.f"; probe1 "n.g"; probe1 "n.h"] in
+  let s1 := run_top 50 (setup regs)
+     [OParse "k1" (VInt 1); OParse "k2" (VBool true);
+      OParse "f.a" (VDict [(VMacro "k1", VStr "a"); (VInt 2, VStr "b"); (VMacro "k2", VStr "c")])] in
+  let s2 := run_top 50 (setup regs)
+     [OParse "kl" (VList [VInt 1]);
+      OParse "f.a" (VDict [(VInt 1, VInt 2); (VMacro "kl", VRef [] "g" true); (VInt 3, VRef [] "h" true)])] in
+  log_of (fst (call 50 s1 "m.f" [] [])) = [("m.f", [("a", VDict [(VInt 1, VStr "c"); (VInt 2, VStr "b")])], 0%Z)] /\
+  (snd (call 50 s2 "m.f" [] []) = Raise "TypeError" /\
+   log_of (fst (call 50 s2 "m.f" [] [])) = [("n.g", [("a", VNone)], 0%Z)]).
+Proof. exact dict_equal_keys_merge. Qed.
+
 Print Assumptions C04_keyword_override_not_evaluated.
 Print Assumptions C04_positional_override_not_evaluated.
 Print Assumptions C04_orig_keyword_refuted.
 Print Assumptions C04_store_frame_eval.
 Print Assumptions C04_store_frame_call.
 Print Assumptions C04_store_frame_handle.
+Print Assumptions C04_dict_value_raises_key_not_run.
+Print Assumptions C04_dict_item_value_before_key.
+Print Assumptions C04_dict_equal_keys_merge.
